@@ -71,7 +71,7 @@ def evalLayout (cfg : Cfg) (es : InEdges) (obs : Json) (heavy : Bool := true) : 
   if cfg.p4 ≤ 3 then
     v := v.addAll "C04" [("nonneg", c04_nonneg o), ("separation", c04_sep cfg o)]
     v := v.add "C09side" (c09_sideBySide cfg o) "components-not-side-by-side"
-  else v := v.skip "C04" "BrandesKoepf"
+  else v := v.skip "C04" "BrandesKoepf / no positioner"
   if cfg.p4 == 5 then v := v.skip "C05" "PositioningNoop"
   else if routed then v := v.add "C05" (c05 o) "endpoints-or-arrowhead"
   else v := v.skip "C05" "no routing"
